@@ -76,9 +76,10 @@ class Gen(object):
             keys = [(cb, fr) for cb in range(2) for fr in range(2)] + \
                    [(cb, fr, b) for cb in range(2) for fr in range(2) for b in range(4)]
             r.shuffle(keys)
-            keep = keys[:r.randint(1, 8)]
-            if r.random() < 0.6 and (0, 0) not in keep and (0, 0, 0) not in keep:
-                keep.append((0, 0))
+            keep = keys[:r.randint(1, 10)]
+            for cf in ((0, 0), (1, 1), (0, 1), (1, 0)):
+                if r.random() < 0.7 and cf not in keep:
+                    keep.append(cf)
             c["bmp"] = [[list(k), i] for i, k in enumerate(keep)]
         return c
 
@@ -94,7 +95,7 @@ class Gen(object):
         if name == "app_id":
             return r.choice([r.randrange(256), r.randrange(16, 200), 66, 0, 255])
         if name in ("cabinet", "frame"):
-            return r.choice([0, 0, 1, 1, 2])
+            return r.choice([0, 0, 0, 1, 1, 1, 1, 2])
         if name == "board":
             return r.choice([0, 1, 2, 3, 3, 5])
         if name == "link":
@@ -188,7 +189,7 @@ class Gen(object):
                     ops.append(self.app(cls, methods, ctl, inforce, depth))
                     continue
                 pos, kw, shape = self.call(cls, m, ctl, inforce)
-                ops.append(["call", m, pos, kw, r.random() < 0.25])
+                ops.append(["call", m, pos, kw, r.random() < 0.15])
                 self.shapes.append((m, shape))
             elif u < 0.75:
                 upcoming = methods[-3:]
@@ -207,7 +208,7 @@ class Gen(object):
                 nm = r.choice(CTX_NAMES[cls])
                 ops.append(["update", [[nm, self.value(cls, "__call__", nm, ctl)]]])
                 inforce = inforce | {nm}
-            elif u < 0.93:
+            elif u < 0.91:
                 ops.append(["raise"])
             else:
                 ops.append(["try", self.block(cls, methods, ctl, inforce, depth + 1)])
@@ -395,6 +396,10 @@ class Unwind(Exception):
     pass
 
 
+class Skip(Exception):
+    pass
+
+
 INNER_P = ("inner", "read", "p")
 MC_ROLES = {
     # chip: "xy" | "broadcast" (255, 255) | "keys";  core of the first command: parameter name, constant, or
@@ -484,7 +489,7 @@ class Oracle(object):
             else:
                 res[n] = dflt[n][1]
         if sg["varargs"] and not lo <= max(0, len(pos) - len(names)) <= hi:
-            raise Reject("wrong number of positional arguments")
+            raise Skip()       # a malformed non-contextual argument list: the property says nothing
         for k, v in explicit.items():
             res.setdefault(k, v)
         return res
@@ -531,6 +536,8 @@ class Oracle(object):
     def check_mc_call(self, m, pos, kw, trace, exc):
         try:
             res = self.resolve(m, pos, kw)
+        except Skip:
+            return
         except Reject as r:
             if trace:
                 self.fail("sent-before-reject:" + m, "%s: %s, yet %d command(s) were sent first: %r"
@@ -598,6 +605,8 @@ class Oracle(object):
     def check_bmp_call(self, m, pos, kw, trace, exc):
         try:
             res = self.resolve(m, pos, kw)
+        except Skip:
+            return
         except Reject as r:
             if trace:
                 self.fail("sent-before-reject:" + m, "BMP %s: %s, yet a command was sent: %r" % (m, r, trace[0]))
@@ -769,7 +778,7 @@ def run(chk, args):
         cases += [b["replay"]["case"] for b in data.get("no_longer_checks", []) if "case" in b.get("replay", {})]
         shapes = []
     else:
-        rounds = 40 if chk.tier == "quick" else 1200
+        rounds = 100 if chk.tier == "quick" else 2000
         gen = Gen(chk.rng, sigs, info)
         cases, shapes = [], []
         for _ in range(rounds):
